@@ -570,7 +570,7 @@ def shards(tier):
 
 def run_shard(spec, ctx):
     with permissive_levels():
-        run_given(histories(), body, ctx, ctx.pick(500, 30000))
+        run_given(histories(), body, ctx, ctx.pick(500, 2600))
 
 
 def replay(data, col):
